@@ -221,6 +221,42 @@ def run(ctx):
             g = guards_call(pp, c.bb, 're:Operator::is_deterministic$', True)
             ctx.inst(R, 'guarded:' + str(tgt), bool(g), '%s.%s inside the plan loop is dominated by a positive is_deterministic() guard' % (tgt, c.callee.split('::')[-1]), c.loc())
         ctx.floor(R, 'evaluation-deciding updates in prune_plan', n, 2)
+    # ---- leaves: a pruned operator's already-resolved inputs must be returned by partial_run
+    R = 'C04.leaves'
+    if pp is not None and pp.has_mir():
+        main = None
+        for h, body in pp.loops():
+            if any(c.bb in body for c in pp.calls() if call_is(c, 're:Operator::is_deterministic$')):
+                if main is None or len(body) > len(main[1]):
+                    main = (h, body)
+        ins = [c for c in pp.calls() if call_is(c, 're:HashSet::<T, S, A>::insert$|HashSet::<T, S>::insert$') and pp.in_loop(c.bb)]
+        push = [c for c in pp.calls() if call_is(c, 're:Vec::<T, A>::push$') and main and c.bb in main[1]]
+        if ctx.anchor(R, 'prune_plan main loop with is_deterministic, leaf-set insert and pruned_plan.push', bool(main and ins and push)):
+            H, body = main
+            # header of the inner loop that records resolved inputs of a pruned operator
+            inner = [h2 for h2, b2 in pp.loops() if h2 != H and any(c.bb in b2 for c in ins) and b2 < body]
+            # entry blocks of the region where the plan element is known to be an operator node
+            region = set()
+            for b in body:
+                for g, hd, vs, place in guards_variant(pp, b, fb):
+                    if vs and 'Operator' in vs and len(vs) == 1:
+                        region.add(b)
+            entries = [b for b in region if not any(p_ in region for p_ in pp.pred()[b])]
+            ok = bool(inner) and bool(entries)
+            bad_from = None
+            for e in entries:
+                r = pp.reach_from(e, avoid=set(inner) | {c.bb for c in push})
+                # reaching the main header again = an operator was skipped without recording its resolved inputs
+                if H in r:
+                    ok = False
+                    bad_from = e
+            ctx.inst(R, 'pruned-op-inputs-recorded', ok,
+                     'every path that handles an operator node reaches the next iteration only through pruned_plan.push or the loop that records its resolved inputs as leaves'
+                     + ('' if ok else ' - VIOLATED from bb%s: an operator can be skipped without recording its available inputs, so partial_run no longer returns them' % bad_from), pp.loc())
+            fl = [fb.fn(p) for p in fb.closures_of(pp.path)]
+            used = any(call_is(c, 're:HashSet::<T, S, A>::contains$|HashSet::<T, S>::contains$') for f2 in fl for c in f2.calls())
+            ctx.inst(R, 'leaf-set-consulted', used, 'the returned output list is filtered by membership in the recorded leaf set', pp.loc())
+
     # ---- single door
     R = 'C04.single-door'
     callers = callers_of(fb, "rten::graph::planner::Planner::<'a>::prune_plan", crates={'rten'})
